@@ -21,9 +21,9 @@ import vlib
 NPARTS = 3
 
 
-def cfg_text(maxb, nd, rule="fixed", pr=0, inv=True):
-    t = ('CONSTANTS MaxBackups = %d NDumps = %d NParts = %d StartRule = "%s" ProcRestarts = %d\n'
-         'SPECIFICATION Spec\nCHECK_DEADLOCK FALSE\n' % (maxb, nd, NPARTS, rule, pr))
+def cfg_text(maxb, nd, rule="fixed", pr=0, inv=True, init="probe"):
+    t = ('CONSTANTS MaxBackups = %d NDumps = %d NParts = %d StartRule = "%s" ProcRestarts = %d InitRule = "%s"\n'
+         'SPECIFICATION Spec\nCHECK_DEADLOCK FALSE\n' % (maxb, nd, NPARTS, rule, pr, init))
     if inv:
         t += "INVARIANTS NeverAborts AfterDump CrashSafe BackupsComplete CountersOK\n"
     return t
@@ -124,17 +124,17 @@ def run(c):
         # the crash-free run of all dumps
         scen.append((m, "d" * nd, "-", 0, None, False))
         os.remove(dot)
-    # process restarts: Layer B is known NOT to satisfy Layer A here (see
-    # DESIGN.md section 7); the scenarios are generated from the graph and the
-    # real code is judged on them
+    # process restarts: a new RestartManager probes the folder (InitRule "probe", fix of the former known finding);
+    # Layer B now satisfies Layer A here too.  The scenarios are generated from the graph and the real code is
+    # judged on them
     for m in ([1, 2] if tier == "quick" else [1, 2, 3, 5]):
         nd = 4 if tier == "quick" else 6
         cfg = os.path.join(rd, "RRp_%d.cfg" % m)
-        open(cfg, "w").write(cfg_text(m, nd, pr=1, inv=False))
+        open(cfg, "w").write(cfg_text(m, nd, pr=1, inv=True))
         dot = os.path.join(rd, "RRp_%d.dot" % m)
         r = vlib.tlc_model("RestartRotation.tla", cfg, rd, workers=2, timeout=600, coverage=False,
                            dump="dot,actionlabels " + dot)
-        c.add_model("RestartRotation with process restart (graph only)", r,
+        c.add_model("RestartRotation with process restart", r,
                     "MaxBackups=%d NDumps=%d ProcRestarts=1" % (m, nd))
         nodes, edges, inits = tlaval.parse_dot(dot)
         paths = tlaval.transition_cover(nodes, edges, inits, edge_filter=lambda i: edges[i][2].startswith("Crash"))
